@@ -6,6 +6,7 @@ From Snaps Require Import Base.Bytes Base.Lines.
 From Snaps Require Import Model.Difflib Model.DifflibSpec Model.Report Model.ReportSpec.
 From Snaps Require Import Proofs.DifflibP Proofs.ReportP.
 From Snaps Require Import Model.Summary Model.ReportReader Proofs.ReportReaderP.
+From Snaps Require Import Model.ScriptGen Proofs.ScriptGenP.
 
 (* comparing two texts yields an empty report iff they are byte-identical *)
 Theorem C13_empty_iff : forall (a b name : bytes) (line : nat),
@@ -151,3 +152,149 @@ Proof. exact printed_injective. Qed.
 Print Assumptions C13_printed_counts.
 Print Assumptions C13_printed_lines_truthful.
 Print Assumptions C13_printed_injective.
+
+
+(* ====================================================================================================================
+   The same statements for EVERY valid edit script - not only the one this model's matcher picks.
+
+   [valid_script a b ops] is an executable checker (tiling + the shape of every opcode); [report_of_script] prints the
+   report of an arbitrary script with the functions the model of the Go code uses. The correspondence check feeds the
+   opcodes the IMPLEMENTATION produced into both: they must pass [valid_script], and the implementation's report must be
+   [report_of_script] of them. A library that picks another valid script (auto-junk off, another matcher) is then still
+   covered by the theorems below; the model's own choice ([get_opcodes]) is one instance.
+   ==================================================================================================================== *)
+
+(* the checker decides exactly "tiles both sequences and every opcode has the shape of its tag" *)
+Theorem C13_valid_script_spec : forall (a b : list line) (ops : list opcode),
+  valid_script a b ops = true <-> tiles 0 0 ops (length a) (length b) /\ Forall (op_wf a b) ops.
+Proof. exact valid_script_spec. Qed.
+Print Assumptions C13_valid_script_spec.
+
+(* the model's matcher produces one valid script, and printing it is the model's report *)
+Theorem C13_model_script_valid : forall a b : list line, valid_script a b (get_opcodes a b) = true.
+Proof. exact get_opcodes_valid. Qed.
+Theorem C13_model_report_is_script_report : forall (a b name : bytes) (line : nat),
+  report_of_script a b (get_opcodes (split_newlines a) (split_newlines b)) name line = pretty_diff_nocolor a b name line.
+Proof. exact report_of_script_model. Qed.
+Print Assumptions C13_model_script_valid.
+Print Assumptions C13_model_report_is_script_report.
+
+(* empty iff byte-identical *)
+Theorem C13_script_empty_iff : forall (a b : bytes) (ops : list opcode) (name : bytes) (line : nat),
+  valid_script (split_newlines a) (split_newlines b) ops = true ->
+  (report_of_script a b ops name line = [] <-> a = b).
+Proof. exact report_of_script_empty_iff. Qed.
+Print Assumptions C13_script_empty_iff.
+
+(* no escape byte is added *)
+Theorem C13_script_no_escape : forall (a b : bytes) (ops : list opcode) (name : bytes) (line : nat),
+  ~ In 27%N (a ++ b ++ name) -> ~ In 27%N (report_of_script a b ops name line).
+Proof. exact report_of_script_no_esc_In. Qed.
+Print Assumptions C13_script_no_escape.
+
+(* header counts = lines shown; every `-` line is a stored line, every `+` line a received line (any script at all) *)
+Theorem C13_script_counts : forall (al bl : list bytes) (ops : list opcode),
+  r_ins (unified_of_script al bl ops) = count_ins (r_lines (unified_of_script al bl ops)) /\
+  r_del (unified_of_script al bl ops) = count_del (r_lines (unified_of_script al bl ops)).
+Proof. exact script_counts. Qed.
+Theorem C13_script_lines_truthful : forall (al bl : list bytes) (ops : list opcode) (l : bytes),
+  (In (RDel l) (r_lines (unified_of_script al bl ops)) -> In l al) /\
+  (In (RIns l) (r_lines (unified_of_script al bl ops)) -> In l bl).
+Proof. exact script_lines_truthful. Qed.
+Print Assumptions C13_script_counts.
+Print Assumptions C13_script_lines_truthful.
+
+(* taking the `-` lines out of the stored text and the `+` lines out of the received text leaves the same lines *)
+Theorem C13_script_residual : forall (a b : bytes) (ops : list opcode),
+  let al := split_newlines a in
+  let bl := split_newlines b in
+  valid_script al bl ops = true ->
+  al = concat (map (fun c => kept_a_of al c ++ deleted_of al c) ops) /\
+  bl = concat (map (fun c => kept_a_of al c ++ inserted_of bl c) ops) /\
+  map (kept_a_of al) ops = map (kept_b_of bl) ops /\
+  del_lines (r_lines (unified_of_script al bl ops)) = concat (map (deleted_of al) ops) /\
+  ins_lines (r_lines (unified_of_script al bl ops)) = concat (map (inserted_of bl) ops).
+Proof. exact script_residual. Qed.
+Print Assumptions C13_script_residual.
+
+(* underneath: tiling, equal only for identical lines, replay, hunks keep every change and stay contiguous *)
+Theorem C13_script_tile_first : forall (a b : list line) (ops : list opcode),
+  valid_script a b ops = true -> forall c r, ops = c :: r -> i1 c = 0 /\ j1 c = 0.
+Proof. exact script_tile_first. Qed.
+Theorem C13_script_tile_abut : forall (a b : list line) (ops : list opcode),
+  valid_script a b ops = true -> forall l1 c d l2, ops = l1 ++ c :: d :: l2 -> i1 d = i2 c /\ j1 d = j2 c.
+Proof. exact script_tile_abut. Qed.
+Theorem C13_script_tile_last : forall (a b : list line) (ops : list opcode),
+  valid_script a b ops = true -> forall l c, ops = l ++ [c] -> i2 c = length a /\ j2 c = length b.
+Proof. exact script_tile_last. Qed.
+Theorem C13_script_equal_sound : forall (a b : list line) (ops : list opcode),
+  valid_script a b ops = true -> forall c, In c ops ->
+  match op_tag c with
+  | Equal => slice a (i1 c) (i2 c) = slice b (j1 c) (j2 c) /\ i1 c < i2 c /\ j1 c < j2 c
+  | Insert => i1 c = i2 c /\ j1 c < j2 c
+  | Delete => i1 c < i2 c /\ j1 c = j2 c
+  | Replace => i1 c < i2 c /\ j1 c < j2 c
+  end.
+Proof. exact script_equal_sound. Qed.
+Theorem C13_script_replay : forall (a b : list line) (ops : list opcode),
+  valid_script a b ops = true -> replay_b a b ops = b /\ replay_a a ops = a.
+Proof. exact script_replay. Qed.
+Theorem C13_script_hunks_keep_changes : forall n (ops : list opcode),
+  filter non_equal (concat (grouped_of_codes n ops)) = filter non_equal ops.
+Proof. exact script_hunks_keep_changes. Qed.
+Theorem C13_script_hunks_contiguous : forall (a b : list line) (ops : list opcode),
+  valid_script a b ops = true -> forall n, Forall abuts (grouped_of_codes n ops).
+Proof. exact script_hunks_contiguous. Qed.
+Print Assumptions C13_script_tile_first.
+Print Assumptions C13_script_tile_abut.
+Print Assumptions C13_script_tile_last.
+Print Assumptions C13_script_equal_sound.
+Print Assumptions C13_script_replay.
+Print Assumptions C13_script_hunks_keep_changes.
+Print Assumptions C13_script_hunks_contiguous.
+
+(* the PRINTED BYTES of any valid script's report carry the structure (read back by the independent reader) *)
+Theorem C13_script_report_readable : forall (a b : bytes) (ops : list opcode) (name : bytes) (line : nat),
+  let al := split_newlines a in
+  let bl := split_newlines b in
+  valid_script al bl ops = true -> a <> b -> name_ok name = true ->
+  read_report (report_of_script a b ops name line) =
+  Some {| rr_del_count := r_del (unified_of_script al bl ops);
+          rr_ins_count := r_ins (unified_of_script al bl ops);
+          rr_lines := r_lines (unified_of_script al bl ops);
+          rr_footer := match name with [] => None | _ :: _ => Some (name, line) end |}.
+Proof. exact read_report_of_script. Qed.
+Theorem C13_script_printed_counts : forall (a b : bytes) (ops : list opcode) (name : bytes) (line : nat),
+  valid_script (split_newlines a) (split_newlines b) ops = true -> a <> b -> name_ok name = true ->
+  exists rr, read_report (report_of_script a b ops name line) = Some rr /\
+             rr_del_count rr = count_del (rr_lines rr) /\ rr_ins_count rr = count_ins (rr_lines rr).
+Proof. exact script_printed_counts. Qed.
+Theorem C13_script_printed_lines_truthful : forall (a b : bytes) (ops : list opcode) (name : bytes) (line : nat),
+  valid_script (split_newlines a) (split_newlines b) ops = true -> a <> b -> name_ok name = true ->
+  exists rr, read_report (report_of_script a b ops name line) = Some rr /\
+             (forall l, In (RDel l) (rr_lines rr) -> In l (split_newlines a)) /\
+             (forall l, In (RIns l) (rr_lines rr) -> In l (split_newlines b)).
+Proof. exact script_printed_lines_truthful. Qed.
+Theorem C13_script_printed_residual : forall (a b : bytes) (ops : list opcode) (name : bytes) (line : nat),
+  let al := split_newlines a in
+  let bl := split_newlines b in
+  valid_script al bl ops = true -> a <> b -> name_ok name = true ->
+  exists rr, read_report (report_of_script a b ops name line) = Some rr /\
+    al = concat (map (fun c => kept_a_of al c ++ deleted_of al c) ops) /\
+    bl = concat (map (fun c => kept_a_of al c ++ inserted_of bl c) ops) /\
+    map (kept_a_of al) ops = map (kept_b_of bl) ops /\
+    del_lines (rr_lines rr) = concat (map (deleted_of al) ops) /\
+    ins_lines (rr_lines rr) = concat (map (inserted_of bl) ops).
+Proof. exact script_printed_residual. Qed.
+Print Assumptions C13_script_report_readable.
+Print Assumptions C13_script_printed_counts.
+Print Assumptions C13_script_printed_lines_truthful.
+Print Assumptions C13_script_printed_residual.
+
+(* non-vacuity: on a 202-line pair where the auto-junk heuristic fires, the model's script and the script a matcher without
+   that heuristic gives are BOTH valid, and their reports differ *)
+Example C13_two_valid_scripts :
+  valid_script ex_al ex_bl (get_opcodes ex_al ex_bl) = true /\ valid_script ex_al ex_bl ex_hand = true /\
+  get_opcodes ex_al ex_bl <> ex_hand /\
+  report_of_script ex_a ex_b (get_opcodes ex_al ex_bl) [] 0 <> report_of_script ex_a ex_b ex_hand [] 0.
+Proof. vm_compute. repeat split; discriminate. Qed.
